@@ -97,7 +97,7 @@ def run(check):
     n = check.pick(300, 4000)
     check.rule = ("foreach programs: item counts {0,1,2,3,7,16,64}, parallelism {default,1,2,n,>n,expression}, sub-workflows of 1-2 steps with or without a declared error "
                   "output, nested loops, per-item outcomes (success/error/crash/alt) and out-of-order completion forced by gates (item 0 finishes after item 1), a "
-                  "consumer of the loop result, cancellation mid-loop, bursts of 16-64 items failing together, loops over an earlier step's result with slow items, loops (top-level and inside items) closed while still waiting for their items; oracles: returned data equals the reference (length, order, per-item provenance tag, exact "
+                  "consumer of the loop result, cancellation mid-loop, bursts of 16-64 items failing together, loops over an earlier step's result with slow items, loops (top-level and inside items) closed while still waiting for their items, items with item-dependent deployment configurations, trees with equally named sub-workflow files through one step registry; oracles: returned data equals the reference (length, order, per-item provenance tag, exact "
                   "failing index sets), every item execution received its own item, high-water mark of concurrently open item executions <= parallelism, cancelled "
                   "loops never report success; non-trivial = >=2 items; distinct = (n, parallelism, failure pattern, out-of-order, returned id)")
     check.assumptions = ["an item 'fails' if its run returns an error or a non-success output (property statement)"]
@@ -198,11 +198,62 @@ def run(check):
                  "shape": "inner loop closed while waiting for its %s in items %s of %d (source: %s)" % (how, failing, nn, bad), "outcome": by_tag, "n": nn, "par": nn, "first_src": "sub_w", "nested": True}
         case, sem = runfam.build_case("c13-w%04d" % i, g)
         items.append((case, sem, g))
+    # items that differ in the deployment configuration of the sub-workflow's step (an item-dependent `deploy` section): each
+    # item is deployed with its own configuration, so exactly the items whose configuration makes the deployment fail are reported
+    from ..model import InputSchema
+    for i in range(check.pick(30, 200)):
+        rng = random.Random(derive_seed(check.seed, "c13-deploycfg", i))
+        nn = rng.choice([2, 4, 6])
+        par = rng.choice([1, 2, nn])
+        w0 = gen.plugin_step("w0", Expr(In("tag")), src="sub_w0", deploy={"deployer_name": "scripted", "tag": Expr(In("tag")), "fail": Expr(In("bad"))})
+        sub = Program([w0], {"success": {"t": gen.tagref("w0")}}, InputSchema({"tag": {"type": "string"}, "bad": {"type": "bool"}}, root="Item"), name="sub.yaml")
+        bad = [rng.random() < 0.4 for _ in range(nn)]
+        if i % 3 == 0:
+            bad = [k % 2 == 1 for k in range(nn)]
+        elif i % 3 == 1:
+            bad = [k == 0 for k in range(nn)]
+        fe = Step("loop", "foreach", sub=sub, items=[{"tag": "i%d" % k, "bad": bad[k]} for k in range(nn)], parallelism=par)
+        prog = Program([fe], {"success": {"d": Expr(Ref("loop", "outputs", "success", "data"))}, "failed": {"e": Expr(Ref("loop", "failed", "error"))}}, gen.BASE_INPUT)
+        g = {"program": prog, "scripts": gen.make_scripts([fe], {}), "input": {"tag": "T1"}, "shape": "item-dependent deployment configuration n=%d par=%d failing=%s" % (nn, par, [k for k in range(nn) if bad[k]]),
+             "outcome": {"i%d" % k: {"outcome": "deployfail"} for k in range(nn) if bad[k]}, "n": nn, "par": par, "first_src": "sub_w0", "nested": True}
+        case, sem = runfam.build_case("c13-d%04d" % i, g)
+        items.append((case, sem, g))
+    # one step registry used for two or three trees whose loops name the same sub-workflow file with different contents: every
+    # loop runs the sub-workflow of its own tree
+    seq_cases = []
+    for j in range(check.pick(12, 80)):
+        rng = random.Random(derive_seed(check.seed, "c13-seq", j))
+        progs = []
+        for k, nsub in enumerate(rng.sample([1, 2, 3], 2) + [rng.choice([1, 2, 3])]):
+            sub = gen.sub_program("sub.yaml", nsub, with_error_output=(k == 1))
+            loop = Step("loop", "foreach", sub=sub, items=Expr(In("items")), parallelism=rng.choice([1, 2]))
+            progs.append(Program([loop], {"success": {"d": Expr(Ref("loop", "outputs", "success", "data"))}, "failed": {"e": Expr(Ref("loop", "failed", "error"))}}, gen.BASE_INPUT))
+        inputs = [{"tag": "Q", "items": [{"tag": "q%d_%d_%d" % (j, k, q)} for q in range(rng.choice([1, 3]))]} for k in range(len(progs))]
+        scripts = {}
+        for pr in progs:
+            scripts.update(gen.make_scripts(pr.steps, {}))
+        seq = [{"files": pr.files(), "input": inp} for pr, inp in zip(progs, inputs)]
+        sems = [ref.RefSem(pr, scripts, ref.normalise_input(pr.input_schema, inp)) for pr, inp in zip(progs, inputs)]
+        seq_cases.append(({"id": "c13-q%04d" % j, "mode": "seq", "files": {}, "scripts": scripts, "runs": [], "extra": {"sequence": seq}, "no_events": True}, sems))
     stats = {"max_hwm": 0, "hwm_equal_parallelism": 0, "out_of_order_runs": 0, "success_results": 0, "failure_results": 0, "cancelled_runs": 0}
     with harness.Runner() as rn:
         if not rn.hang_oracle_works():
             check.fail_broken("the hang oracle (Go runtime deadlock report) does not fire in this build")
         out = rn.run_cases([c for c, _s, _g in items], per_case_timeout=90)
+        seq_out = rn.run_cases([c for c, _s in seq_cases], per_case_timeout=90)
+    for case, sems in seq_cases:
+        o = seq_out.get(case["id"], {})
+        check.count()
+        if "result" not in o:
+            check.inconclusive_case(case["id"], str(o.get("death", {}).get("key")))
+            continue
+        for pos, (sm, rr) in enumerate(zip(sems, o["result"].get("runs") or [])):
+            exp = sm.result()["avail"].get("success")
+            m = "run failed: %s" % rr["err"][:200] if rr.get("err") else ref.match(exp, ref.denum(rr.get("data")))
+            if m:
+                check.report("loop@sub-workflow-of-another-tree", "tree %d of a sequence through one step registry (same sub-workflow file name, other contents): the loop's result is not that of its own sub-workflow: %s" % (pos, m),
+                             {"case": case, "run": rr})
+        check.nontrivial("seq|%d" % len(sems))
     by_id = {c["id"]: (c, s, g) for c, s, g in items}
     for cid in sorted(out):
         o = out[cid]
